@@ -213,6 +213,7 @@ func bedFilePool(n int) []bedRec {
 }
 
 func runC04(r *core.Run) {
+	firstCallClause(r, "bed.")
 	texts := enum.AllStrings("a\",# ", 2)
 	texts = append(texts, `"a"`, `a"b"`, "\x00", "\x80", "'", `\"`)
 	// the format's own vocabulary used as ordinary field content, and multi-byte UTF-8 (incl. the
